@@ -45,6 +45,11 @@ type File struct {
 	Lines          []Line `json:"lines"`
 	NoFinalNewline bool   `json:"no_final_newline,omitempty"`
 	CRLF           bool   `json:"crlf,omitempty"`
+	// Ext: the file's extension as written in Path when it is not the language's first extension in
+	// lower case ("" = langExt[Lang]): another extension of the language (cc, kts, mjs ...) or a
+	// spelling with capital letters (JAVA, Py). The counter maps extensions to languages without
+	// regard to letter case, and --include-ext compares with the lower-case extension.
+	Ext string `json:"ext,omitempty"`
 }
 
 type Tree struct {
@@ -67,6 +72,11 @@ type Tree struct {
 	// Extra: further options that concern scc's own presentation only (each element is one option,
 	// "-f csv" = two words).
 	Extra []string `json:"extra,omitempty"`
+	// BoolEq: the mode flag is spelled --by-directory=true / --top-file=true.
+	BoolEq bool `json:"bool_eq,omitempty"`
+	// Neutral: further options that change nothing for a tree of this kind (no ignore files, no
+	// symlinks, no binary files; limits that only apply together with --no-large); spelled as in Extra.
+	Neutral []string `json:"neutral,omitempty"`
 	// Second, when set, is reported after this tree by a second invocation in the same working
 	// directory (so the coca_reporter directory of the first run is still there).
 	Second *Tree `json:"second,omitempty"`
@@ -77,15 +87,35 @@ type Sweep struct {
 }
 
 var langExt = map[string]string{"Java": "java", "Go": "go", "Python": "py", "JavaScript": "js", "Kotlin": "kt",
-	"C": "c", "C Header": "h", "C++": "cpp", "C#": "cs", "TypeScript": "ts", "Ruby": "rb", "Rust": "rs", "Shell": "sh"}
+	"C": "c", "C Header": "h", "C++": "cpp", "C#": "cs", "TypeScript": "ts", "Ruby": "rb", "Rust": "rs", "Shell": "sh",
+	"C Shell": "csh", "C++ Header": "hpp", "JSON": "json"}
+
+// altExt: further extensions that the counter maps to the same language.
+var altExt = map[string][]string{"C": {"ec"}, "C++": {"cc", "cxx", "c++"}, "C#": {"csx"}, "JavaScript": {"mjs"}, "Kotlin": {"kts"},
+	"TypeScript": {"tsx"}, "C++ Header": {"hh", "hxx"}}
 
 // the first five are the original pool (shrinking moves towards them); the others bring language
 // names that are prefixes of one another (C, C Header, C++, C#; Java, JavaScript; TypeScript) and
 // names with blanks and symbols into the header.
-var allLangs = []string{"Java", "Go", "Python", "JavaScript", "Kotlin", "C", "C Header", "C++", "C#", "TypeScript", "Ruby", "Rust", "Shell"}
+// The last three add a name that ends in another one (C Shell / Shell; C++ Header / C Header end
+// alike), a name that extends another by a word (C++ / C++ Header), and a language without any
+// comment syntax whose files are named like the tool's own result files (JSON).
+var allLangs = []string{"Java", "Go", "Python", "JavaScript", "Kotlin", "C", "C Header", "C++", "C#", "TypeScript", "Ruby", "Rust", "Shell", "C Shell", "C++ Header", "JSON"}
+
+// langFamilies: languages whose names are prefixes, suffixes or parts of one another.
+var langFamilies = [][]string{
+	{"C", "C++", "C Header", "C#"},
+	{"Java", "JavaScript"},
+	{"Shell", "C Shell", "C"},
+	{"C++", "C++ Header", "C Header"},
+	{"JavaScript", "TypeScript", "Java"},
+}
 
 // hashLangs: languages whose only comment form is the hash line comment.
-var hashLangs = map[string]bool{"Python": true, "Ruby": true, "Shell": true}
+var hashLangs = map[string]bool{"Python": true, "Ruby": true, "Shell": true, "C Shell": true}
+
+// noCommentLangs: languages without comment syntax: every non-blank line is code.
+var noCommentLangs = map[string]bool{"JSON": true}
 var ignoredNames = []string{".git", ".svn", ".hg", ".idea", "coca_reporter"}
 
 func isIgnoredName(n string) bool {
@@ -113,6 +143,9 @@ var codeTemplates = map[string][]string{
 	"Ruby":       {"%s = 1", "def %s(a, b)", "end", "return %s + 1", "if %s < 3", "%s.run", "puts %s"},
 	"Rust":       {"let %s = 1;", "fn %s(a: i32) -> i32 {", "}", "return %s + 1;", "if %s < 3 {", "%s.run();", "let mut %s = 2;"},
 	"Shell":      {"%s=1", "echo $%s", "fi", "done", "if [ $%s -lt 3 ]; then", "cd %s", "export %s"},
+	"C Shell":    {"set %s = 1", "echo $%s", "endif", "end", "if ($%s < 3) then", "cd %s", "setenv %s 1"},
+	"C++ Header": {"int %s(void);", "class %s;", "namespace %s {", "}", "extern int %s;", "struct %s {", "};"},
+	"JSON":       {"{", "}", "[", "]", "1,", "true,", "null", "[1, 2],", "{},"},
 }
 
 func genWords(t *rapid.T, label string) string {
@@ -134,7 +167,11 @@ func genLines(t *rapid.T, lang string) []Line {
 func genLinesN(t *rapid.T, lang string, n int) []Line {
 	var out []Line
 	for len(out) < n {
-		switch k := rapid.IntRange(0, 9).Draw(t, "lineKind"); {
+		k := rapid.IntRange(0, 9).Draw(t, "lineKind")
+		if noCommentLangs[lang] && k > 4 && k <= 6 {
+			k = 0
+		}
+		switch {
 		case k <= 4: // code
 			tpl := rapid.SampledFrom(codeTemplates[lang]).Draw(t, "tpl")
 			text := tpl
@@ -175,10 +212,26 @@ func genLinesN(t *rapid.T, lang string, n int) []Line {
 
 var stems = []string{"a", "b", "Main", "util", "x1", "Foo", "bar_baz", "T", "mod", "App", "v1.x", "my file"}
 
+// unusualStems: "" stands for a very long name (drawn).
+var unusualStems = []string{"Gr\u00f6\u00dfe", "$x", "7", ".hidden", "", "\u6e90", "a  b", "_"}
+
+// toolFileStems: names of the tool's own result files (they are JSON files).
+var toolFileStems = []string{"base_cloc", "top_cloc", "sort_cloc", "debug_cloc", "package"}
+
+// longName draws a name of 90-180 letters and digits (no blank: see addLines).
+func longName(t *rapid.T, label string) string {
+	n := rapid.IntRange(90, 180).Draw(t, "len"+label)
+	unit := rapid.SampledFrom([]string{"Long", "abcdefghij", "x9_"}).Draw(t, "unit"+label)
+	return strings.Repeat(unit, n/len(unit)+1)[:n]
+}
+
 type dirFiller struct {
 	t     *rapid.T
 	used  map[string]bool
 	files *[]File
+	// altBoost: languages that --include-ext names by one of their extensions: their files get
+	// another extension more often (so that the filter separates files of one language)
+	altBoost map[string]bool
 }
 
 func (f dirFiller) add(dir, lang string) {
@@ -188,13 +241,55 @@ func (f dirFiller) add(dir, lang string) {
 // addLines adds one file of the language to dir; n < 0 = a length drawn by genLines.
 func (f dirFiller) addLines(dir, lang string, n int) {
 	stem := rapid.SampledFrom(stems).Draw(f.t, "stem")
+	// now and then an unusual stem: non-ASCII letters, `$`, digits only, a hidden file, a very long
+	// name, (for JSON) the names of the tool's own result files
+	if rapid.IntRange(0, 11).Draw(f.t, "unusualStem") == 11 {
+		if lang == "JSON" {
+			stem = rapid.SampledFrom(toolFileStems).Draw(f.t, "toolFileStem")
+		} else {
+			stem = rapid.SampledFrom(unusualStems).Draw(f.t, "stemUnusual")
+			if stem == "" {
+				stem = longName(f.t, "Stem")
+			}
+		}
+	}
+	// a location of more than 80 characters that contains a blank would be wrapped over several
+	// table lines by the tool's table writer: long paths get blank-free file names
+	if len(dir)+len(stem) > 60 {
+		stem = strings.ReplaceAll(stem, " ", "_")
+		if strings.Contains(dir, " ") && len(stem) > 8 {
+			stem = stem[:8]
+		}
+	}
+	ext := langExt[lang]
+	fileExt := ""
+	switch rapid.IntRange(0, 11).Draw(f.t, "extVariant") {
+	case 10: // capital letters
+		fileExt = strings.ToUpper(ext)
+		if rapid.Bool().Draw(f.t, "extMixedCase") {
+			fileExt = strings.ToUpper(ext[:1]) + ext[1:]
+		}
+	case 11: // another extension of the language
+		if alts := altExt[lang]; len(alts) > 0 {
+			fileExt = rapid.SampledFrom(alts).Draw(f.t, "altExt")
+		}
+	}
+	if f.altBoost[lang] && fileExt == "" && rapid.IntRange(0, 2).Draw(f.t, "extVariantOfFilteredLang") == 2 {
+		fileExt = rapid.SampledFrom(append([]string{langExt[lang]}, altExt[lang]...)).Draw(f.t, "altExtOfFilteredLang")
+	}
+	if fileExt == ext {
+		fileExt = ""
+	}
+	if fileExt != "" {
+		ext = fileExt
+	}
 	name := ""
 	for i := 0; ; i++ {
 		name = stem
 		if i > 0 {
 			name = stem + strconv.Itoa(i)
 		}
-		name += "." + langExt[lang]
+		name += "." + ext
 		if !f.used[dir+"/"+name] {
 			break
 		}
@@ -204,7 +299,7 @@ func (f dirFiller) addLines(dir, lang string, n int) {
 	if dir != "" {
 		path = dir + "/" + name
 	}
-	file := File{Path: path, Lang: lang}
+	file := File{Path: path, Lang: lang, Ext: fileExt}
 	// now and then a byte-for-byte copy of an earlier file of the language (same content in two
 	// places: both count in full)
 	if rapid.IntRange(0, 9).Draw(f.t, "copyOfEarlier") == 9 {
@@ -244,6 +339,19 @@ func (f dirFiller) addLines(dir, lang string, n int) {
 var plainDirNames = []string{"a", "b", "src", "lib", "pkg", "core", "v1.2", "x.json", "Docs", "test_data", "m-1", ".cfg", "cloc", "tree", "x", ".github", "coca_reporter_old", "idea", ".hgx", ".svn2",
 	"docs", "A", "my dir", "d\u00f6nner", "old.idea", "my_coca_reporter", "base_cloc", "cloc.csv", "x.json.json", "java"}
 
+// unusualDirNames: further ordinary names, used in one tree in four (so that the names above keep
+// their frequency): the words of the report's header (package, summary) and names of languages;
+// parts and beginnings of the ignored names (git, hg, svn, coca, reporter, .g, .ide: none of them is
+// an ignored name); names with `$`, digits only, one underscore; two blanks in a row, a blank at the
+// end; CJK letters; a name that looks like a line of the top-file report; a name that extends another
+// one by a character (src2, ab); "" stands for a very long name (drawn, 90-180 characters); names of
+// the tool's result files and of their extension; directories that build tools and package managers
+// make (node_modules, vendor, target, build, bin, dist, out: neither VCS nor IDE nor report
+// directories, so each has its row).
+var unusualDirNames = []string{"package", "summary", "Java", "Go", "C++", "git", "hg", "svn", "coca", "reporter", ".g", ".ide", "$x", "7", "_",
+	"a  b", "lib ", "\u6e90\u7801", "Language: Go", "src2", "ab", "", "json", ".json", "cloc.json", "top_cloc",
+	"node_modules", "vendor", "target", "build", "bin", "dist", "out"}
+
 // nestedNames: names of directories below an immediate subdirectory. .idea and coca_reporter are
 // ignored only as immediate subdirectories: deeper down they are ordinary directories whose files
 // count for the row of the subdirectory they are in. a, b, src, lib also occur as immediate ones.
@@ -281,6 +389,15 @@ func fillSubdir(t *rapid.T, tr *Tree, f dirFiller, name string, langs []string) 
 			f.addLines(name, lang, rapid.IntRange(0, 6).Draw(t, "nLinesMany"))
 		}
 	}
+	// rarely a huge directory: more than 200 tiny files of one language, so that the counter's
+	// result with one entry per file (a single line of JSON, which the tool reads back) passes 64 KiB
+	if rapid.IntRange(0, 7).Draw(t, "hugeDir") == 7 && rapid.IntRange(0, 5).Draw(t, "hugeDirReally") == 5 {
+		m := rapid.IntRange(215, 250).Draw(t, "nHuge")
+		lang := rapid.SampledFrom(langs).Draw(t, "hugeLang")
+		for i := 0; i < m; i++ {
+			f.addLines(name, lang, rapid.IntRange(0, 2).Draw(t, "nLinesHuge"))
+		}
+	}
 }
 
 func addDir(tr *Tree, d string) {
@@ -298,9 +415,31 @@ func genLangs(t *rapid.T) []string {
 	// now and then more than five: the by-directory report has no limit (the top-file table on
 	// stdout is printed for up to five languages only and is not judged above that)
 	if rapid.IntRange(0, 11).Draw(t, "manyLangs") == 11 {
-		k = rapid.IntRange(6, 8).Draw(t, "nLangsMany")
+		k = rapid.SampledFrom([]int{6, 6, 7, 9, 12, 16}).Draw(t, "nLangsMany")
 	}
 	perm := rapid.Permutation(allLangs).Draw(t, "langPerm")
+	// now and then a single language
+	if rapid.IntRange(0, 15).Draw(t, "oneLang") == 15 {
+		k = 1
+	}
+	// now and then two or three languages whose names are prefixes / suffixes / parts of one another
+	if rapid.IntRange(0, 5).Draw(t, "langFamily") == 5 {
+		fam := rapid.Permutation(rapid.SampledFrom(langFamilies).Draw(t, "family")).Draw(t, "familyPerm")
+		fam = fam[:rapid.IntRange(2, len(fam)).Draw(t, "nFamily")]
+		if len(fam) > 3 {
+			fam = fam[:3]
+		}
+		merged := append([]string{}, fam...)
+		for _, l := range perm {
+			if !containsStr(merged, l) {
+				merged = append(merged, l)
+			}
+		}
+		perm = merged
+		if k < len(fam) {
+			k = len(fam)
+		}
+	}
 	return perm[:k]
 }
 
@@ -320,7 +459,18 @@ func genOptions(t *rapid.T, tr *Tree, langs []string) {
 		for _, l := range perm {
 			if len(tr.IncludeExt) < n && !seen[l] {
 				seen[l] = true
-				tr.IncludeExt = append(tr.IncludeExt, langExt[l])
+				e := langExt[l]
+				// now and then another extension of the language instead of (or next to) the first:
+				// files of that language with the other extension are then filtered out / kept
+				if alts := altExt[l]; len(alts) > 0 {
+					switch rapid.IntRange(0, 5).Draw(t, "includeAltExt") {
+					case 4:
+						e = rapid.SampledFrom(alts).Draw(t, "includedAltExt")
+					case 5:
+						tr.IncludeExt = append(tr.IncludeExt, rapid.SampledFrom(alts).Draw(t, "includedAltExt"))
+					}
+				}
+				tr.IncludeExt = append(tr.IncludeExt, e)
 			}
 		}
 	}
@@ -335,6 +485,11 @@ func genOptions(t *rapid.T, tr *Tree, langs []string) {
 		tr.TopSize, tr.TopSizeOmitted = defaultTopSize, true
 	}
 	genPresentation(t, tr)
+	tr.BoolEq = rapid.IntRange(0, 7).Draw(t, "boolFlagWithValue") == 7
+	if rapid.IntRange(0, 5).Draw(t, "neutralOptions") == 5 {
+		n := rapid.IntRange(1, 3).Draw(t, "nNeutral")
+		tr.Neutral = append([]string{}, rapid.Permutation(neutralOptions).Draw(t, "neutralPerm")[:n]...)
+	}
 }
 
 const defaultTopSize = 30
@@ -348,6 +503,14 @@ var sortValues = []string{"", "", "", "", "", "", "", "code", "name", "lines", "
 // reports are built from scc's JSON result, which coca requests itself); none of them selects what
 // is counted.
 var presentationOptions = []string{"--no-complexity", "-c", "--no-cocomo", "--no-size", "--ci", "--by-file", "--format=csv", "-f tabular", "--format json", "--size-unit=binary", "--avg-wage=1000"}
+
+// neutralOptions: options that select or limit what is counted in other trees but change nothing for
+// the generated ones: there are no .gitignore/.ignore files, no symlinks, no files with NUL bytes, no
+// generated/minified marks are asked for; the limits apply only together with --no-large (not given);
+// --exclude-dir is given with its default value; --count-as maps an extension that no file has.
+var neutralOptions = []string{"--binary", "--no-ignore", "--no-gitignore", "--include-symlinks", "--file-gc-count=1", "--file-gc-count 100000",
+	"--large-line-count=3", "--large-byte-count 10", "--min-gen-line-length=1", "--exclude-dir=.git,.hg,.svn", "--exclude-dir .git,.hg,.svn",
+	"--count-as zzq:java", "--generated-markers=zzq"}
 
 func genPresentation(t *rapid.T, tr *Tree) {
 	tr.Sort = rapid.SampledFrom(sortValues).Draw(t, "sort")
@@ -365,8 +528,30 @@ func genShape(t *rapid.T, nCounted int, ignored []string, nEmpty, nRoot int, pre
 	tr := Tree{Dirs: []string{}, Files: []File{}}
 	langs := genLangs(t)
 	genOptions(t, &tr, langs)
-	f := dirFiller{t: t, used: map[string]bool{}, files: &tr.Files}
+	f := dirFiller{t: t, used: map[string]bool{}, files: &tr.Files, altBoost: map[string]bool{}}
+	for _, e := range tr.IncludeExt {
+		for l, alts := range altExt {
+			if e == langExt[l] || containsStr(alts, e) {
+				f.altBoost[l] = true
+			}
+		}
+	}
 	names := rapid.Permutation(plainDirNames).Draw(t, "dirNames")
+	if rapid.IntRange(0, 3).Draw(t, "unusualDirNames") == 3 {
+		n := rapid.IntRange(1, 4).Draw(t, "nUnusualDirNames")
+		var front []string
+		for _, x := range rapid.Permutation(unusualDirNames).Draw(t, "unusualDirPerm")[:n] {
+			if x == "" {
+				x = longName(t, "Dir")
+			}
+			front = append(front, x)
+		}
+		names = append(front, names...)
+	}
+	// a very wide tree needs more names than the pools have
+	for i := 0; len(names) < nCounted+nEmpty; i++ {
+		names = append(names, "w"+strconv.Itoa(i))
+	}
 	if len(prefer) > 0 {
 		seen := map[string]bool{}
 		var merged []string
@@ -463,6 +648,10 @@ func genCounts(t *rapid.T) (nCounted int, ignored []string, nEmpty, nRoot int) {
 		nCounted = rapid.IntRange(7, 12).Draw(t, "nCountedWide")
 	}
 	nRoot = rapid.SampledFrom([]int{0, 0, 1, 2}).Draw(t, "nRoot")
+	// now and then a very wide tree (past 16 and 32 subdirectories)
+	if rapid.IntRange(0, 29).Draw(t, "veryWide") == 29 {
+		nCounted = rapid.IntRange(17, 40).Draw(t, "nCountedVeryWide")
+	}
 	return
 }
 
@@ -556,7 +745,7 @@ func (f File) top() string { // first path element, "" for a file in the root
 	return ""
 }
 
-// counted: a source file of one of the five languages that passes the include-ext filter.
+// counted: a source file of one of the languages that passes the include-ext filter.
 func (tr Tree) counted(f File) bool {
 	if f.Lang == "" {
 		return false
@@ -565,11 +754,19 @@ func (tr Tree) counted(f File) bool {
 		return true
 	}
 	for _, e := range tr.IncludeExt {
-		if e == langExt[f.Lang] {
+		if e == f.ext() {
 			return true
 		}
 	}
 	return false
+}
+
+// ext: the file's extension in lower case (what --include-ext is compared with).
+func (f File) ext() string {
+	if f.Ext != "" {
+		return strings.ToLower(f.Ext)
+	}
+	return langExt[f.Lang]
 }
 
 func (tr Tree) immediateSubdirs() []string {
@@ -650,6 +847,10 @@ func (tr Tree) cmdline(arg string, mode ...string) []string {
 			i++
 			continue
 		}
+		if tr.BoolEq && (mode[i] == "--by-directory" || mode[i] == "--top-file") {
+			flags = append(flags, mode[i]+"=true")
+			continue
+		}
 		flags = append(flags, mode[i])
 	}
 	if len(tr.IncludeExt) > 0 {
@@ -678,6 +879,9 @@ func (tr Tree) cmdline(arg string, mode ...string) []string {
 		}
 	}
 	for _, e := range tr.Extra {
+		flags = append(flags, strings.Fields(e)...)
+	}
+	for _, e := range tr.Neutral {
 		flags = append(flags, strings.Fields(e)...)
 	}
 	if tr.ArgStyle&1 != 0 {
@@ -717,6 +921,11 @@ func describeRun(args []string, res cli.Result) string {
 	return fmt.Sprintf("coca %s\nexit %d\nstdout:\n%s\nstderr:\n%s", strings.Join(args, " "), res.ExitCode, res.Stdout, res.Stderr)
 }
 
+// timedOut: the sub-process was stopped by the harness after 120 s. The statement says nothing about
+// run time, and on a loaded machine a process can stall: such a case is inconclusive (counted as
+// skipped), not a violation (DESIGN.md section 5).
+const timedOut = "TIMEOUT"
+
 // ---- oracle: by-directory ------------------------------------------------------------------
 
 func checkByDirectory(tr Tree, base, ws string) string {
@@ -726,7 +935,10 @@ func checkByDirectory(tr Tree, base, ws string) string {
 	if err != nil {
 		return "HARNESS: cannot run coca: " + err.Error()
 	}
-	if res.TimedOut || res.ExitCode != 0 {
+	if res.TimedOut {
+		return timedOut
+	}
+	if res.ExitCode != 0 {
 		return "by-directory run did not complete normally\n" + describeRun(args, res)
 	}
 	raw, err := os.ReadFile(filepath.Join(ws, "coca_reporter", "cloc.csv"))
@@ -909,12 +1121,18 @@ func checkTopFile(tr Tree, base, ws string, obs *[]string) (msg string, mismatch
 	if err != nil {
 		return "HARNESS: cannot run coca: " + err.Error(), 0
 	}
-	if res.TimedOut || res.ExitCode != 0 {
+	if res.TimedOut {
+		return timedOut, 0
+	}
+	if res.ExitCode != 0 {
 		return "top-file run did not complete normally\n" + describeRun(args, res), 0
 	}
 	raw, err := os.ReadFile(filepath.Join(ws, "coca_reporter", "sort_cloc.json"))
 	if err != nil {
 		return fmt.Sprintf("coca_reporter/sort_cloc.json was not written: %v\n%s", err, describeRun(args, res)), 0
+	}
+	if st, err := os.Stat(filepath.Join(ws, "coca_reporter", "top_cloc.json")); err == nil && st.Size() > 65536 {
+		*obs = append(*obs, "top_file:counter_result_read_back_is_larger_than_64KiB")
 	}
 	var sums []sccSummary
 	if err := json.Unmarshal(raw, &sums); err != nil {
@@ -1129,11 +1347,16 @@ func checkTree(tr Tree) pbt.Verdict {
 		m = strings.ReplaceAll(m, scratch, "<scratch>")
 		return reProfile.ReplaceAllString(m, "profile…")
 	}
-	if msgDir != "" {
+	isTimeout := func(m string) bool { return strings.HasSuffix(strings.SplitN(m, "\n", 2)[0], timedOut) }
+	if msgDir != "" && !isTimeout(msgDir) {
 		return pbt.Fail("%s", clean(msgDir))
 	}
-	if msgTop != "" {
+	if msgTop != "" && !isTimeout(msgTop) {
 		return pbt.Fail("%s", clean(msgTop))
+	}
+	if isTimeout(msgDir) || isTimeout(msgTop) {
+		pbt.Count("cases_with_a_run_stopped_after_120s(inconclusive, skipped)", 1)
+		return pbt.Verdict{Skip: true}
 	}
 	if mism > 0 {
 		pbt.Count("files_whose_comment_or_blank_count_differs_from_ground_truth(not asserted)", mism)
@@ -1203,8 +1426,28 @@ func classify(tr Tree) pbt.Verdict {
 		if add0 {
 			v.Classes = append(v.Classes, "subdir_with_files_but_nothing_counted")
 		}
-		if strings.ContainsAny(d, " \u00f6") {
+		if strings.ContainsAny(d, " \u00f6\u6e90") {
 			v.Classes = append(v.Classes, "subdir_name_with_blank_or_non_ascii")
+		}
+		if d == "package" || d == "summary" || containsStr(allLangs, d) {
+			v.Classes = append(v.Classes, "subdir_named_like_a_word_of_the_header")
+		}
+		for _, ig := range ignoredNames {
+			if d != ig && len(d) >= 2 && strings.Contains(ig, d) {
+				v.Classes = append(v.Classes, "subdir_name_is_part_of_an_ignored_name")
+			}
+		}
+		if len(d) >= 90 {
+			v.Classes = append(v.Classes, "subdir_name_of_90+_characters")
+		}
+		if strings.HasSuffix(d, " ") || strings.Contains(d, "  ") {
+			v.Classes = append(v.Classes, "subdir_name_with_trailing_blank_or_two_blanks")
+		}
+		if containsStr([]string{"node_modules", "vendor", "target", "build", "bin", "dist", "out"}, d) {
+			v.Classes = append(v.Classes, "subdir_named_like_a_build_or_dependency_directory")
+		}
+		if containsStr(unusualDirNames, d) {
+			v.Classes = append(v.Classes, "subdir_name_from_the_unusual_pool")
 		}
 		if len(set) > 0 {
 			counted++
@@ -1245,7 +1488,63 @@ func classify(tr Tree) pbt.Verdict {
 	}
 	add(tr.Second != nil && tr.Second.Name == tr.Name && tr.Second.Sort != tr.Sort, "second_report_same_tree_other_sort")
 	add(len(tr.immediateSubdirs()) > 6, "more_than_6_subdirs")
-	maxCode, maxFiles, newLang, nestedIgnored, prefixPair := 0, 0, false, false, false
+	add(len(tr.immediateSubdirs()) > 16, "more_than_16_subdirs")
+	add(len(tr.immediateSubdirs()) > 32, "more_than_32_subdirs")
+	add(tr.BoolEq, "mode_flag_spelled_=true")
+	add(len(tr.Neutral) > 0, "neutral_options_given")
+	add(len(must) == 1, "exactly_one_language")
+	add(len(may) == 5, "exactly_5_languages")
+	add(len(may) == 6, "exactly_6_languages")
+	add(len(may) > 8, "more_than_8_languages")
+	inSubdirs := map[string]bool{}
+	extVariant, extCapital, stemUnusual, longPath := false, false, false, false
+	for _, f := range tr.Files {
+		if f.Lang == "" {
+			continue
+		}
+		for _, e := range tr.IncludeExt {
+			if e != f.ext() && (e == langExt[f.Lang] || containsStr(altExt[f.Lang], e)) {
+				v.Classes = append(v.Classes, "include_ext_names_one_extension_of_a_language_and_a_file_has_another")
+			}
+		}
+		if !tr.counted(f) {
+			continue
+		}
+		if f.top() != "" && !isIgnoredName(f.top()) {
+			inSubdirs[f.Lang] = true
+		}
+		if f.Ext != "" {
+			if strings.ToLower(f.Ext) == langExt[f.Lang] {
+				extCapital = true
+			} else {
+				extVariant = true
+			}
+		}
+		base := f.Path[strings.LastIndex(f.Path, "/")+1:]
+		for _, u := range append(append([]string{}, unusualStems...), toolFileStems...) {
+			if u != "" && strings.HasPrefix(base, u) && !containsStr(stems, u) {
+				stemUnusual = true
+			}
+		}
+		if len(base) > 90 {
+			stemUnusual = true
+		}
+		if len(f.Path) > 100 {
+			longPath = true
+		}
+	}
+	onlyRoot := false
+	for l := range must {
+		if !inSubdirs[l] {
+			onlyRoot = true
+		}
+	}
+	add(onlyRoot, "language_only_in_root_files")
+	add(extVariant, "file_with_another_extension_of_its_language")
+	add(extCapital, "file_extension_with_capital_letters")
+	add(stemUnusual, "unusual_file_name")
+	add(longPath, "file_path_of_100+_characters")
+	maxCode, maxFiles, newLang, nestedIgnored, prefixPair, suffixPair := 0, 0, false, false, false, false
 	for l, codes := range perLang {
 		if len(codes) > maxFiles {
 			maxFiles = len(codes)
@@ -1264,6 +1563,9 @@ func classify(tr Tree) pbt.Verdict {
 			if m != l && strings.HasPrefix(m, l) {
 				prefixPair = true
 			}
+			if m != l && strings.HasSuffix(m, l) {
+				suffixPair = true
+			}
 		}
 	}
 	for _, d := range tr.Dirs {
@@ -1278,6 +1580,8 @@ func classify(tr Tree) pbt.Verdict {
 	add(maxCode >= 10, "file_with_10+_code_lines")
 	add(maxCode >= 100, "file_with_100+_code_lines")
 	add(maxFiles > 8, "more_than_8_files_of_one_language")
+	add(maxFiles > 64, "more_than_64_files_of_one_language")
+	add(maxFiles > 200, "more_than_200_files_of_one_language")
 	add(newLang, "language_beyond_the_first_five")
 	contents := map[string]bool{}
 	for _, f := range tr.Files {
@@ -1288,9 +1592,12 @@ func classify(tr Tree) pbt.Verdict {
 		}
 	}
 	add(prefixPair, "language_name_prefix_of_another")
+	add(suffixPair, "language_name_suffix_of_another")
 	add(nestedIgnored, "ignored_name_below_a_subdirectory")
 	truncates, tie := false, false
 	for _, codes := range perLang {
+		add(len(codes) == tr.TopSize, "language_with_exactly_top_size_files")
+		add(len(codes) == tr.TopSize+1, "language_with_top_size+1_files")
 		if len(codes) > tr.TopSize {
 			truncates = true
 			sort.Sort(sort.Reverse(sort.IntSlice(codes)))
@@ -1355,15 +1662,18 @@ func checkSweep(s Sweep) pbt.Verdict {
 
 func init() {
 	pbt.SetProperty("C16")
-	pbt.Describe("rapid-generated directory trees: 0-6 (now and then 7-12) immediate subdirectories (ordinary names incl. dotted and hidden ones, names with a blank or a non-ASCII letter, names differing only in letter case, names that extend or end in an ignored name without being one (coca_reporter_old, my_coca_reporter, old.idea), names of the tool's own report files; 0-3 of the ignored names .git/.svn/.hg/.idea/coca_reporter; empty ones; ones holding only files of unknown type; files nested up to three levels, also below directories named .idea / coca_reporter / like another immediate subdirectory), 0-2 files in the root, 2-5 of 13 languages (Java, Go, Python, JavaScript, Kotlin, C, C Header, C++, C#, TypeScript, Ruby, Rust, Shell: names that are prefixes of one another, names with blanks and symbols); every file is 0-9 (now and then 10-40 or 190-260) lines that are unambiguously code (no comment marker, no quote), whole-line comment (line, one-line block, multi-line block without blank lines) or blank, optionally CRLF / no final newline, so code lines per file are known by construction (one, two and three digits); now and then 9-33 small files of one language in one directory; one file in ten is a byte-for-byte copy of an earlier file of its language; --include-ext subsets in a quarter of the cases (mostly of the tree's languages, now and then an absent one; spelled --include-ext a,b / -i a,b / --include-ext=a,b / one option per value); --top-size in {0,1,2,3,4,5,7,10,30}, in one case in ten any value 0-40, in one in ten left out (default 30; such trees get a directory of 26-36 files of one language in one subdirectory in four); in half of the cases scc's --sort option with one of its documented values code/name/lines/complexity/comments/blanks/files (spelled --sort X / -s X / --sort=X), which changes the order in which the languages are reported (so that a language with few files can come before one with many) but not what is counted; in a quarter of the cases one or two further options that concern scc's own presentation only (--no-complexity/-c, --no-cocomo, --no-size, --ci, --by-file, --format/-f csv|tabular|json, --size-unit, --avg-wage); flags before or after DIR; DIR given as NAME, NAME/, ./NAME, an absolute path, '.' (working directory = the tree), up/NAME or ../NAME. A quarter of the 'tree' cases are a sequence: after the first tree a second report is produced in the same working directory (coca_reporter of the first run still there), either of the same tree under other options or of another tree sharing directory names with the first; both reports are judged. The sub-check 'sweep' builds, per case, all 16 combinations of (0..3 counted subdirectories) x (an ignored name present) x (an empty directory present). Oracle: the coca binary as a sub-process: cloc DIR --by-directory -> cloc.csv header/rows/cells/summary against the ground truth, stdout rows = csv rows; cloc DIR --top-file --top-size N -> sort_cloc.json lists every counted file with its code lines, stdout has per language min(N, files) rows in non-increasing order whose lengths are the N largest and which can be assigned to distinct files. Non-trivial = at least two counted subdirectories with different language sets; distinct = hash of (subdirectories, path:language:code-lines of every file, include-ext, top-size, sort).",
+	pbt.Describe("rapid-generated directory trees: 0-6 (now and then 7-12, one tree in twenty 17-40: past 16 and 32) immediate subdirectories (ordinary names incl. dotted and hidden ones, names with a blank or a non-ASCII letter, names differing only in letter case, names that extend or end in an ignored name without being one (coca_reporter_old, my_coca_reporter, old.idea), names of the tool's own report files; in one tree in four also one to four names of a second pool: the words of the report's header (package, summary) and names of languages, parts and beginnings of the ignored names (git, hg, svn, coca, reporter, .g, .ide), names of build and dependency directories (node_modules, vendor, target, build, bin, dist, out), `$x`, `7`, `_`, two blanks in a row, a blank at the end, CJK letters, 'Language: Go', src2/ab, json/.json/cloc.json/top_cloc, a name of 90-180 characters; 0-3 of the ignored names .git/.svn/.hg/.idea/coca_reporter; empty ones; ones holding only files of unknown type; files nested up to three levels, also below directories named .idea / coca_reporter / like another immediate subdirectory), 0-2 files in the root, 2-5 (one tree in sixteen: exactly one; one in twelve: 6, 7, 9, 12 or all 16) of 16 languages (Java, Go, Python, JavaScript, Kotlin, C, C Header, C++, C#, TypeScript, Ruby, Rust, Shell, C Shell, C++ Header, JSON: names that are prefixes or suffixes of one another, names with blanks and symbols, a language without comment syntax; in one tree in six two or three languages of one such family are put first: C/C++/C Header/C#, Java/JavaScript, Shell/C Shell/C, C++/C++ Header/C Header, JavaScript/TypeScript/Java); file names from a pool of stems (incl. a dotted one and one with a blank), one in twelve from a second pool (non-ASCII letters, `$x`, digits only, a hidden file, two blanks, 90-180 characters; for JSON the names of the tool's own result files: base_cloc, top_cloc, sort_cloc, debug_cloc, package); the extension is the language's first one, in one file in twelve written with capital letters (JAVA, Py) and in one in twelve another extension of the language (ec, cc, cxx, c++, csx, mjs, kts, tsx, hh, hxx; more often for a language that --include-ext names); every file is 0-9 (now and then 10-40 or 190-260) lines that are unambiguously code (no comment marker, no quote), whole-line comment (line, one-line block, multi-line block without blank lines) or blank, optionally CRLF / no final newline, so code lines per file are known by construction (one, two and three digits); now and then 9-33 small files of one language in one directory, rarely (a few trees per hundred) 215-250 tiny files of one language in one directory (the counter's per-file result, one line of JSON that the tool reads back, then passes 64 KiB); one file in ten is a byte-for-byte copy of an earlier file of its language; --include-ext subsets in a quarter of the cases (mostly of the tree's languages, now and then an absent one; for a language with several extensions now and then another extension instead of or next to the first, so that the filter keeps some files of a language and drops others; spelled --include-ext a,b / -i a,b / --include-ext=a,b / one option per value); --top-size in {0,1,2,3,4,5,7,10,30}, in one case in ten any value 0-40, in one in ten left out (default 30; such trees get a directory of 26-36 files of one language in one subdirectory in four); in half of the cases scc's --sort option with one of its documented values code/name/lines/complexity/comments/blanks/files (spelled --sort X / -s X / --sort=X), which changes the order in which the languages are reported (so that a language with few files can come before one with many) but not what is counted; in a quarter of the cases one or two further options that concern scc's own presentation only (--no-complexity/-c, --no-cocomo, --no-size, --ci, --by-file, --format/-f csv|tabular|json, --size-unit, --avg-wage); in one case in six one to three options that change nothing for trees of this kind (--binary, --no-ignore, --no-gitignore, --include-symlinks, --file-gc-count, --large-line-count / --large-byte-count without --no-large, --min-gen-line-length, --generated-markers, --exclude-dir with its default value, --count-as for an extension no file has); in one case in eight the mode flag spelled --by-directory=true / --top-file=true; flags before or after DIR; DIR given as NAME, NAME/, ./NAME, an absolute path, '.' (working directory = the tree), up/NAME or ../NAME. A quarter of the 'tree' cases are a sequence: after the first tree a second report is produced in the same working directory (coca_reporter of the first run still there), either of the same tree under other options or of another tree sharing directory names with the first; both reports are judged. The sub-check 'sweep' builds, per case, all 16 combinations of (0..3 counted subdirectories) x (an ignored name present) x (an empty directory present). Oracle: the coca binary as a sub-process: cloc DIR --by-directory -> cloc.csv header/rows/cells/summary against the ground truth, stdout rows = csv rows; cloc DIR --top-file --top-size N -> sort_cloc.json lists every counted file with its code lines, stdout has per language min(N, files) rows in non-increasing order whose lengths are the N largest and which can be assigned to distinct files. Non-trivial = at least two counted subdirectories with different language sets; distinct = hash of (subdirectories, path:language:code-lines of every file, include-ext, top-size, sort).",
 		"row order, language column order and the order of equal-sized files are free; stdout rows and csv rows are compared as multisets after the header",
 		"files inside .git/.svn/.hg/.idea/coca_reporter as immediate subdirectories: a language that occurs only there may or may not be named in the header, and such files may or may not be listed by --top-file (the statement does not say); stdout of --top-file is judged against the files that sort_cloc.json lists. Deeper down .idea and coca_reporter are ordinary directories (their files count for the row they are under); .git/.hg/.svn are not generated below the first level (scc's deny list drops them)",
 		"the printed location is only required to be a suffix of the file's path (the tool strips the DIR prefix with TrimLeft, which can eat more)",
+		"a location of more than 80 characters that contains a blank is wrapped over several table lines by the tool's table writer (the statement does not define the layout): files whose path is that long get names without blanks, and the very long directory names have none",
+		"file contents are read by the counter (scc) only, never by coca's own code: byte order marks, very long lines, deeper nesting than three levels and files recognised by full name or #! line are not generated",
+		"a run that the harness has to stop after 120 s is inconclusive (the case is counted as skipped): the statement says nothing about run time",
 		"comment and blank counts of sort_cloc.json are compared with the ground truth but only counted, not asserted (the statement speaks of code lines)",
 		"with DIR = '.' the tool's own coca_reporter directory appears inside the tree while it runs: it is an ignored directory; that form is used for single reports only (a second run would count the first run's JSON/CSV report files as source files of the tree)",
-		"not generated: directory names ending in .git/.hg/.svn (scc's deny list matches by suffix), letter-case variants of the ignored names, .gitignore/.ignore files, symlinks, names with commas, negative --top-size; options that select what is counted (--exclude-dir, --not-match, --no-duplicates, --no-large, --no-min-gen, --count-as, --remap-*) since the statement defines the figures without them; --wide/-w, --output, --debug/--verbose/--trace (they replace or interleave scc's result, from which the reports are built)",
+		"not generated: directory names ending in .git/.hg/.svn (scc's deny list matches by suffix), letter-case variants of the ignored names, names of other VCS/IDE/report directories (.bzr, CVS, .vscode, .settings, .gradle, reports: the statement does not say whether they count as such), .gitignore/.ignore files, symlinks, names with a comma, a double quote, a leading blank or a line break (cloc.csv quotes such a name, stdout does not: the statement does not say how the row is spelled), names with `|`, names that are not valid UTF-8, names of more than 250 bytes (the per-directory result file NAME.json could not be created), negative --top-size; options that select what is counted (--exclude-dir, --not-match, --no-duplicates, --no-large, --no-min-gen, --count-as, --remap-*) since the statement defines the figures without them; --wide/-w, --output, --debug/--verbose/--trace (they replace or interleave scc's result, from which the reports are built)",
 		"--sort and the presentation options are taken to be configurations of the quantifier: the statement's figures, row set and per-language order and truncation do not depend on them, and the oracle is the same with and without them",
-		"one tree in twelve has 6-8 languages: the by-directory report and sort_cloc.json are judged as usual, the top-file table on stdout is not (the tool prints it for up to five languages only")
+		"one tree in twelve has 6-16 languages: the by-directory report and sort_cloc.json are judged as usual, the top-file table on stdout is not (the tool prints it for up to five languages only")
 	pbt.Register("tree", 110, 400, genTree, checkTree)
 	pbt.Register("sweep", 3, 6, genSweep, checkSweep)
 }
